@@ -21,7 +21,9 @@ import (
 	"os"
 	"path/filepath"
 	"sort"
+	"strconv"
 	"strings"
+	"time"
 
 	sp "github.com/scipipe/scipipe"
 	"github.com/scipipe/scipipe/components"
@@ -357,7 +359,8 @@ func goFuncTask(t *sp.Task, p Proc) {
 		if f := os.Getenv("VERIF_CMDLOG"); f != "" {
 			fh, err := os.OpenFile(f, os.O_APPEND|os.O_CREATE|os.O_WRONLY, 0644)
 			if err == nil {
-				fmt.Fprintf(fh, "%s 0 %d %s\n", tag, os.Getpid(), key)
+				now := time.Now()
+				fmt.Fprintf(fh, "%s %d.%06d %d %s\n", tag, now.Unix(), now.Nanosecond()/1000, os.Getpid(), key)
 				fh.Close()
 			}
 		}
@@ -402,6 +405,16 @@ func goFuncTask(t *sp.Task, p Proc) {
 		}
 		if i == 0 {
 			logf("M")
+			if ctl := os.Getenv("VERIF_CTL"); ctl != "" { // ctl "<key>.sleep" / "<proc>.sleep" / "ALL.sleep": seconds
+				for _, f := range []string{key + ".sleep", p.Name + ".sleep", "ALL.sleep"} {
+					if b, err := ioutil.ReadFile(filepath.Join(ctl, f)); err == nil {
+						if secs, err := strconv.ParseFloat(strings.TrimSpace(string(b)), 64); err == nil {
+							time.Sleep(time.Duration(secs * float64(time.Second)))
+						}
+						break
+					}
+				}
+			}
 			if fault == "exit_after_partial" {
 				sp.Failf("gofunc %s: injected failure after partial write", key)
 			}
